@@ -752,6 +752,145 @@ def _opname(op: ast.cmpop) -> str:
         type(op), "?")
 
 
+def d2e_wrapped_elements(chk: Check) -> None:
+    """A keyword search that classifies its input on the *unwrapped* form
+    (`node_is_aoh(unwrap_node_coords(data))`) believes its elements may
+    arrive wrapped in NodeCoords -- they do when the input is a collector's
+    result.  Inside that branch an element is used as a mapping (`k in e`,
+    `e[k]`) only after it has been unwrapped too: a NodeCoords is not
+    iterable / subscriptable by key and the query ends in a TypeError."""
+    from sa.coords import reaching_def
+    prog = chk.prog
+    chk.rule("C15-D2e", "inside a branch taken on the unwrapped form of its "
+             "input, a keyword search uses an element as a mapping only "
+             "after unwrapping it", floor=8)
+
+    def has_unwrap(e: ast.AST) -> bool:
+        return any(isinstance(x, ast.Call) and
+                   src(x.func).endswith("unwrap_node_coords")
+                   for x in ast.walk(e))
+
+    for fi in prog.funcs_in("yamlpath/common/keywordsearches.py"):
+        unwrapped: Dict[str, str] = {}
+        for n in walk_local(fi.node):
+            if isinstance(n, (ast.Assign, ast.AnnAssign)) and \
+                    isinstance(n.value, ast.Call) and \
+                    src(n.value.func).endswith("unwrap_node_coords") and \
+                    n.value.args and src(n.value.args[0]) in fi.params():
+                tgt = n.targets[0] if isinstance(n, ast.Assign) else n.target
+                unwrapped[src(tgt)] = src(n.value.args[0])
+        if not unwrapped:
+            continue
+        for br in walk_local(fi.node):
+            if not (isinstance(br, ast.If) and isinstance(br.test, ast.Call)
+                    and src(br.test.func).endswith("node_is_aoh") and
+                    br.test.args and src(br.test.args[0]) in unwrapped):
+                continue
+            raw = unwrapped[src(br.test.args[0])]
+            for loop in [x for st in br.body for x in ast.walk(st)
+                         if isinstance(x, ast.For)]:
+                it = loop.iter
+                if isinstance(it, ast.Call) and src(it.func) == "enumerate" \
+                        and it.args and src(it.args[0]) == raw and \
+                        isinstance(loop.target, ast.Tuple):
+                    elem = src(loop.target.elts[1])
+                elif src(it) == raw:
+                    elem = src(loop.target)
+                else:
+                    continue
+                for u in walk_local(loop):
+                    used: Optional[ast.AST] = None
+                    if isinstance(u, ast.Compare) and len(u.ops) == 1 and \
+                            isinstance(u.ops[0], (ast.In, ast.NotIn)) and \
+                            isinstance(u.comparators[0], ast.Name):
+                        used = u.comparators[0]
+                    elif isinstance(u, ast.Subscript) and \
+                            isinstance(u.ctx, ast.Load) and \
+                            isinstance(u.value, ast.Name):
+                        used = u.value
+                    if used is None:
+                        continue
+                    nm = src(used)
+                    if nm == elem:
+                        good = False
+                    else:
+                        d = reaching_def(nm, u)
+                        if d is None or elem not in {
+                                x.id for x in ast.walk(d)
+                                if isinstance(x, ast.Name)}:
+                            continue
+                        good = has_unwrap(d)
+                    text = "{}: `{}` used as a mapping".format(
+                        fi.short, src(u)[:40])
+                    if good:
+                        chk.ok("C15-D2e", fi, u, text, "unwrapped first")
+                    else:
+                        chk.fail("C15-D2e", fi, u, text,
+                                 "the branch is taken on the unwrapped form "
+                                 "of `{}` but its element is used as it "
+                                 "arrives: a NodeCoords element (collector "
+                                 "output) raises TypeError".format(raw))
+
+
+def d2f_join_over_text(chk: Check, cl: List[FuncInfo]) -> None:
+    """`sep.join(xs)` raises TypeError unless every element is text.  Keys,
+    members and values of a document are arbitrary scalars (integer ports,
+    dates, booleans, null), so a join over them -- even inside a debug
+    message, whose arguments are evaluated whether or not debugging is on
+    -- ends a query with a foreign exception."""
+    prog = chk.prog
+    chk.rule("C15-D2f", "no `.join()` in the closure of get_nodes()/exists() "
+             "ranges over document data unless each element is converted "
+             "to text (or the value is known to be a str)", floor=2)
+    n = 0
+    for fi in cl:
+        dps = _data_params(fi) | {"data"} & set(fi.params())
+        for c in walk_local(fi.node):
+            if not (isinstance(c, ast.Call) and
+                    isinstance(c.func, ast.Attribute) and
+                    c.func.attr == "join" and len(c.args) == 1 and
+                    isinstance(c.func.value, (ast.Constant, ast.Name))):
+                continue
+            if isinstance(c.func.value, ast.Name) and \
+                    not c.func.value.id.endswith(("sep", "term", "glue")):
+                continue
+            n += 1
+            arg = c.args[0]
+            roots = {x.id for x in ast.walk(arg) if isinstance(x, ast.Name)}
+            text = "{}: `{}`".format(fi.short, src(c)[:50])
+            if not (roots & dps):
+                chk.ok("C15-D2f", fi, c, text, "not over document data")
+                continue
+            converted = isinstance(arg, (ast.GeneratorExp, ast.ListComp)) \
+                and isinstance(arg.elt, (ast.Call, ast.JoinedStr)) and (
+                    isinstance(arg.elt, ast.JoinedStr) or
+                    src(arg.elt.func) in ("str", "repr") or
+                    src(arg.elt.func).endswith(".format"))
+            converted = converted or (
+                isinstance(arg, ast.Call) and src(arg.func) == "map" and
+                arg.args and src(arg.args[0]) in ("str", "repr"))
+            known_str = isinstance(arg, ast.Name) and any(
+                f.kind == "cond" and f.pol and isinstance(f.expr, ast.Call)
+                and src(f.expr.func) == "isinstance" and
+                src(f.expr.args[1]) == "str" and
+                src(f.expr.args[0]) in roots | {
+                    a.targets[0].id for a in walk_local(fi.node)
+                    if isinstance(a, ast.Assign) and
+                    isinstance(a.targets[0], ast.Name) and
+                    isinstance(a.value, ast.Name) and a.value.id == arg.id}
+                for f in facts_at(c))
+            if converted or known_str:
+                chk.ok("C15-D2f", fi, c, text, "elements converted to text"
+                       if converted else "a str (joins its characters)")
+            else:
+                chk.fail("C15-D2f", fi, c, text,
+                         "joins document data as it is: a non-text key / "
+                         "member (integer, date, null) raises TypeError out "
+                         "of the query")
+    if n < 2:
+        raise AnalysisError("join sites of the closure not found")
+
+
 def run(chk: Check) -> None:
     prog = chk.prog
     cl = c15_closure(prog)
@@ -769,6 +908,8 @@ def run(chk: Check) -> None:
     d2c_templates(chk, cl, "C15-D1d")
     d2_partial(chk, cl)
     d2_types(chk, cl)
+    d2e_wrapped_elements(chk)
+    d2f_join_over_text(chk, cl)
     chk.notes.append("closure: {} functions".format(len(cl)))
     chk.notes.append("non-negative int parameters: {}".format(
         sorted("{}.{}".format(q.split(".")[-1], p)
